@@ -215,6 +215,18 @@ func entryParser(rc *RunCtx) *Violation {
 		rc.probe("pivot call panicked")
 	}
 	simrt.HashEvent(hashString(pivot.desc()))
+	// results stay what they were: parse a different document, then look at the pivot again
+	if simrt.Choose(2) == 1 {
+		before := pivot.desc()
+		other := w.docs[simrt.Choose(len(w.docs))]
+		otherText := instantiate(other.text, delims) + " "
+		call(func() (interface{}, error) { return p.ParseString("other.txt", otherText) })
+		call(func() (interface{}, error) { return p.ParseBytes("other.txt", []byte(otherText)) })
+		if after := pivot.desc(); after != before {
+			return viol("result-changed-after-later-call", fmt.Sprintf("the result of ParseString changed after later calls on the same parser: was %s, now %s", clip(before, 400), clip(after, 400)))
+		}
+	}
+
 	// token positions for aiming splits
 	var toks []lexer.Token
 	lexed := lexCall(func() ([]lexer.Token, error) { return p.Lex(name, strings.NewReader(d)) })
@@ -386,18 +398,6 @@ func entryParser(rc *RunCtx) *Violation {
 				return viol("read-error-wrong-result", fmt.Sprintf("reader failed after %d bytes; Parse returned %s, which is neither an error nor the result for the delivered prefix (%s)", len(prefix), clip(got.desc(), 400), clip(want.desc(), 400)))
 			}
 			rc.probe("read error swallowed: result equals that of the delivered prefix")
-		}
-	}
-
-	// results stay what they were: parse a different document, then look at the pivot again
-	{
-		before := pivot.desc()
-		other := w.docs[simrt.Choose(len(w.docs))]
-		otherText := instantiate(other.text, delims) + " "
-		call(func() (interface{}, error) { return p.ParseString("other.txt", otherText) })
-		call(func() (interface{}, error) { return p.ParseBytes("other.txt", []byte(otherText)) })
-		if after := pivot.desc(); after != before {
-			return viol("result-changed-after-later-call", fmt.Sprintf("the result of ParseString changed after later calls on the same parser: was %s, now %s", clip(before, 400), clip(after, 400)))
 		}
 	}
 
